@@ -5,17 +5,18 @@ from . import common
 from harness import corpus
 
 PROP = "C19"
-MONITORS = ("M-route", "M-life", "M-ref")
+MONITORS = ("M-route", "M-life", "M-ref", "M-child")
 
 def affinity_scenarios(tier):
     out = []
     seq = {s["name"]: s for s in corpus.seq_family(tier)}
     ok = {s["name"]: s for s in corpus.fanout_ok_family(tier)}
     ch = {s["name"]: s for s in corpus.child_family(tier)}
-    base = [seq["seq-two-exec-one-machine"], seq["seq-retry-ok"], seq["seq-async-child"], ok["par-2x1"], ok["map-n2-mc1"], ch["child-sync-ok"], ch["token-success"], ch["child-sync-in-parallel"]]
+    base = [seq["seq-two-exec-one-machine"], seq["seq-retry-ok"], seq["seq-async-child"], ok["par-2x1"], ok["map-n2-mc1"], ch["child-sync-ok"], ch["token-success"], ch["child-sync-in-parallel"], ch["child-sdk-express-ok"], ch["child-sync2-ok"],
+            seq["seq-unroutable-beside-blocked"]]
     if tier != "quick":
         base += [seq["seq-wait-and-task"], seq["seq-catch"], seq["seq-timeout"], seq["seq-express"], ok["par-2x2"], ok["map-n2-mc0"], ok["par-in-map"], ok["par-invoke"],
-                 ch["child-sync-fails-caught"], ch["child-sync-in-map"], ch["token-failure"], ch["token-duplicate"], ch["child-sdk-express-ok"], ch["token-rpc-reply-before-callback"]]
+                 ch["child-sync-fails-caught"], ch["child-sync-in-map"], ch["token-failure"], ch["token-duplicate"], ch["child-sdk-express-fails"], ch["token-rpc-reply-before-callback"]]
     for s0 in base:
         for n in ((1, 2, 3) if tier != "quick" or s0["name"] in ("seq-two-exec-one-machine", "seq-async-child") else (1, 2)):
             for qt in (("classic", "quorum") if tier != "quick" or s0["name"] in ("seq-two-exec-one-machine", "child-sync-ok", "token-success") else ("classic",)):
@@ -237,6 +238,21 @@ def ack_case(transport):
         after = sorted(ch.unacked)
         if len(before) != 3 or after != [before[0], before[2]]:
             return "unacked tags %r -> %r after acknowledging the second message" % (before, after)
+        # a message the broker returned (mandatory, unroutable) is not a delivery: acknowledging it acknowledges nothing
+        returned = []
+        pm = ln.producer("no-such-queue")
+        ln.run(pm.set_return_callback(returned.append)) if hasattr(pm, "set_return_callback") else None
+        ln.run(pm.send(ln.mod.Message("lost", mandatory=True)))
+        for chan in ln.conn.connection.channels if hasattr(ln.conn, "connection") else []:
+            while getattr(chan, "pending_returns", None):
+                method, props, body, _ = chan.pending_returns.pop(0)
+                for cb in list(chan._on_return):
+                    cb(chan, method, props.copy(), body)
+        if len(returned) != 1:
+            return "a mandatory message to a queue that does not exist produced %d returned messages" % len(returned)
+        returned[0].acknowledge(multiple=False)
+        if sorted(ch.unacked) != after or not ch.is_open:
+            return "acknowledging a returned message changed the unacked deliveries %r -> %r (channel open %s)" % (after, sorted(ch.unacked), ch.is_open)
         got[0].acknowledge(multiple=False); got[2].acknowledge(multiple=False)
         if ch.unacked or not ch.is_open:
             return "tags left %r, channel open %s" % (sorted(ch.unacked), ch.is_open)
